@@ -1,10 +1,76 @@
 import CueVerif.Driver.Proto
+import CueVerif.Model.Quote
 namespace CueVerif.Driver.C09
 open CueVerif CueVerif.Driver
+
+/-- form code: `<S|B><multiline><auto><autoHash><asciiOnly><graphicOnly>.<indent>`, e.g. `S01010.2` -/
+def parseForm (w : String) : Option Quote.Form :=
+  match w.splitOn "." with
+  | [flags, ind] =>
+    match flags.toList, ind.toNat? with
+    | [k, m, a, h, asc, g], some n =>
+      let base : Option Quote.Form :=
+        if k == 'S' then some Quote.stringForm else if k == 'B' then some Quote.bytesForm else none
+      base.map fun b =>
+        { b with multiline := m == '1', auto := a == '1', autoHash := h == '1',
+                 asciiOnly := asc == '1', graphicOnly := g == '1', indent := n }
+    | _, _ => none
+  | _ => none
+
+/-- `cp:flags,cp:flags,…` (bit 0 = strconv.IsPrint, bit 1 = strconv.IsGraphic), "-" for none -/
+def parseEnv (w : String) : Option Quote.Env :=
+  if w == "-" then some { isPrint := fun _ => false, isGraphic := fun _ => false } else
+  let items := (w.splitOn ",").mapM fun it =>
+    match it.splitOn ":" with
+    | [a, b] => do let x ← a.toNat?; let y ← b.toNat?; pure (x, y)
+    | _ => none
+  items.map fun tbl =>
+    let look (r : Nat) : Nat := match tbl.find? (fun e => e.1 == r) with
+      | some e => e.2
+      | none => 0
+    { isPrint := fun r => look r % 2 == 1, isGraphic := fun r => look r / 2 % 2 == 1 }
+
+def errStr : Quote.Err → String
+  | .syntax => "syntax" | .missingOpeningNewline => "opening-newline"
+  | .missingClosingNewline => "closing-newline" | .unmatchedQuote => "unmatched"
+  | .surrogate => "surrogate" | .invalidUTF8 => "utf8" | .escapedLastNewline => "escaped-last-newline"
+  | .whitespace => "whitespace" | .panic => "panic" | .fuel => "fuel"
+
+def resStr : Except Quote.Err Quote.Bytes → String
+  | .ok b => "ok " ++ hex b
+  | .error e => "err " ++ errStr e
 
 /-- protocol handler for C09: words of one op line (after the property id) → answer -/
 def handle (ws : List String) : String :=
   match ws with
+  | ["quote", form, s, env] =>
+    match parseForm form, unhex s, parseEnv env with
+    | some f, some b, some E => hex (Quote.quote E f b)
+    | _, _, _ => "bad-op"
+  | ["quotefixed", form, s, env] =>
+    match parseForm form, unhex s, parseEnv env with
+    | some f, some b, some E => hex (Quote.quoteFixed E f b)
+    | _, _, _ => "bad-op"
+  | ["unquote", s] =>
+    match unhex s with
+    | some b => resStr (Quote.unquote b)
+    | none => "bad-op"
+  | ["decode", s] =>
+    -- utf8.DecodeRuneInString / DecodeLastRuneInString of the model's own decoder
+    match unhex s with
+    | some b =>
+      let a := Quote.decodeRune b
+      let z := Quote.decodeLastRune b
+      s!"{a.1} {a.2} {z.1} {z.2}"
+    | none => "bad-op"
+  | ["encode", r] =>
+    match r.toNat? with
+    | some n => hex (Quote.encodeRune n)
+    | none => "bad-op"
+  | ["isspace", r] =>
+    match r.toNat? with
+    | some n => boolStr (Quote.isSpace n)
+    | none => "bad-op"
   | _ => "bad-op"
 
 end CueVerif.Driver.C09
